@@ -42,7 +42,15 @@ def gen(tier, rng, scale):
             r = rng.below(100)
             base = rng.choice(interesting + starts + [rng.below(flen + 2)])
             off = min(2**64 - 1, max(0, base + rng.range(-4, 4)))
-            if r < 50:
+            if r < 8:
+                # read_bytes_into: appended to a destination that may already hold bytes (pdb::Source::view gathers several slices into one Vec)
+                size = rng.choice([0, 1, 8, 100, 4096, CH, CH + 1])
+                if rng.chance(1, 8) and flen >= off:
+                    size = flen - off + rng.choice([0, 0, 1])
+                if size > 4 * CH:
+                    size = 4 * CH
+                items.append(["I", off, size, rng.choice([0, 0, 1, 7, 4096])])
+            elif r < 50:
                 size = rng.choice([0, 1, 2, 7, 8, 100, 4096, CH - 1, CH, CH + 1, rng.below(3 * CH)])
                 if rng.chance(1, 25):
                     off = 2**64 - rng.range(1, 5)
@@ -106,6 +114,8 @@ def _line(c):
 
 
 def _coq_op(it):
+    if it[0] == "I":
+        return "ReadInto %d %d" % (it[1], it[2])
     return ("ReadAt %d %d" % (it[1], it[2])) if it[0] == "A" else ("ReadUntil %d %d %d" % (it[1], it[2], it[3]))
 
 
@@ -215,7 +225,7 @@ def describe(case):
 
 
 def distribution(cases):
-    d = {"file_lens": {}, "calls": {"A": 0, "U": 0}, "empty_until": 0, "overflowing": 0, "oob": 0}
+    d = {"file_lens": {}, "calls": {"A": 0, "U": 0, "I": 0}, "empty_until": 0, "overflowing": 0, "oob": 0}
     for c in cases:
         d["file_lens"][str(c["flen"])] = d["file_lens"].get(str(c["flen"]), 0) + 1
         for it in c["items"]:
